@@ -168,6 +168,35 @@ func normalize(t *Term) *Term {
 		}
 	case "load":
 		// load(field(p,f)) stays; nothing to do
+	case "slice":
+		// bounds written as arithmetic on constants: x[0*n:1*n] is x[:n];
+		// an upper bound equal to the length of the base is no bound
+		if len(t.Args) == 4 {
+			var lp *Prog
+			lo, hi := t.Args[1], t.Args[2]
+			ch := false
+			if lo.Op == "binop" {
+				if l := lp.linearize(lo); len(l.co) == 0 && l.c == 0 {
+					lo, ch = T("_", ""), true
+				} else if sm := simplifyLin(l); sm != nil && !sm.eq(lo) {
+					lo, ch = sm, true
+				}
+			} else if lo.Op == "const" && lo.S == "0" {
+				lo, ch = T("_", ""), true
+			}
+			if hi.Op != "_" {
+				if d := lp.linearize(tSub(hi, tLen(t.Args[0]))); len(d.co) == 0 && d.c == 0 {
+					hi, ch = T("_", ""), true
+				} else if hi.Op == "binop" {
+					if sm := simplifyLin(lp.linearize(hi)); sm != nil && !sm.eq(hi) {
+						hi, ch = sm, true
+					}
+				}
+			}
+			if ch {
+				return &Term{Op: "slice", Args: []*Term{t.Args[0], lo, hi, t.Args[3]}}
+			}
+		}
 	case "append":
 		// contents of slices built from literals: append(make(T, 0, c), xs...)
 		// is xs, append(literal, xs...) is the concatenation
@@ -615,7 +644,7 @@ func (e *termEngine) sliceTerm(v *ssa.Slice) *Term {
 	} else {
 		args[3] = T("_", "")
 	}
-	return &Term{Op: "slice", Args: args}
+	return normalize(&Term{Op: "slice", Args: args})
 }
 
 // phiTerm: gate recognition for if-diamonds/triangles.
